@@ -1,5 +1,5 @@
 (* C13 — pinned statements; proofs live in Proofs/LockProofs.v. *)
-From NW Require Import Base.Bytes Model.Locks.
+From NW Require Import Base.Bytes Model.Locks Gen.LockLint.
 Local Open Scope nat_scope.
 
 (* the model exhibits the historical deadlock of the pre-fix code: LEAVE and CHANNELS owner=true pipelined
@@ -73,3 +73,11 @@ Proof. exact old_channels_owner_wedges. Qed.
 Theorem C13_old_handler_undisciplined :
   forall (c : nat) (cs : list nat), disciplined (p_channels_owner_old (c :: cs)) = false.
 Proof. exact channels_owner_old_not_disciplined. Qed.
+
+(* The discipline the handler table of Model/Locks.v assumes ("a parked task holds no map-shard lock") is read
+   off the CURRENT source by translator/locklint.py (coq/Gen/LockLint.v is regenerated on every run): no access to
+   a sharded map has its guard alive across an await point, and the scan saw the channel manager's and the
+   router's accesses. *)
+Theorem C13_source_no_map_guard_across_await :
+  NW.Gen.LockLint.guard_across_await = [] /\ (20 <=? NW.Gen.LockLint.map_access_sites)%N = true.
+Proof. split; reflexivity. Qed.
